@@ -162,8 +162,13 @@ def rule_justification_always_processed(ctx):
         r = cfg.reach_from([0], avoid_blocks=allc)
         leak = r & rets
         if leak:
-            W = Walker(ctx, f, [])
-            leak = W.reachable({}, 0, allc) & rets
+            # per kind of justification (an `if let Commit .. else if let Timeout ..` chain has a third, infeasible way out)
+            def is_j(t):
+                return t[0] == "field" and t[2] == "justification"
+            W = Walker(ctx, f, [Atom("justification", "enum", is_j, ["Commit", "Timeout"])])
+            leak = set()
+            for v in ("Commit", "Timeout"):
+                leak |= W.reachable({"justification": v}, 0, allc) & rets
         ctx.ob(R, "%s: justification processed on every successful path" % h, not leak and bool(rets),
                "every Ok return of %s is preceded by process_commit_qc / process_timeout_qc of the carried certificate" % h if not leak and rets else
                "%s can return Ok without handing the message's justification to process_commit_qc / process_timeout_qc: the certificate of an accepted message is dropped (e.g. when the message is for the replica's current view)" % h, f.loc())
